@@ -2,35 +2,43 @@
 (***************************************************************************)
 (* C40 on a manager whose registry has a history.  Sessions 1..N are        *)
 (* created; afterwards Terminate calls (manager.go Terminate) select a set  *)
-(* S of registered sessions and halt them one by one in an arbitrary order. *)
-(*   Terminate(S)          every halt succeeds                              *)
-(*   TerminateFailsAt(S,k) the halt of session k fails after it disabled    *)
-(*                         the controller (its files cannot be removed);    *)
-(*                         the sessions halted before k are gone, k is      *)
-(*                         disabled, the call returns an error and the rest *)
-(*                         of S is untouched                                *)
-(* live = sessions that are neither terminated nor disabled; reg = the      *)
-(* manager's session map.  Invariant (REPAIRED behaviour, /repo cde6463):   *)
-(* reg = live after every action - a session that was in fact terminated    *)
-(* is never listed, selected by label or matched by a specification.        *)
-(* Pause changes neither set.                                               *)
+(* S of registered sessions and halt them one by one in an arbitrary order, *)
+(* removing each from the registry when its halt succeeded.                 *)
+(*   Terminate(S)                 every halt succeeds                       *)
+(*   TerminateFailsAt(S,k,before) the halt of session k fails (its session  *)
+(*                         file cannot be removed); the sessions halted     *)
+(*                         before k are gone, the call returns an error,    *)
+(*                         the rest of S is untouched, and k itself is in   *)
+(*                         limbo: the property does not say whether a       *)
+(*                         session whose termination failed is still a      *)
+(*                         session, so it may stay in the registry or not   *)
+(*   Pause(S)              changes nothing here                             *)
+(* gone = sessions whose terminating halt succeeded.  Invariant: no gone    *)
+(* session is registered, and every session that is neither gone nor in     *)
+(* limbo is registered.  CleanupAfterLoop = TRUE is the seeded mistake      *)
+(* (sanity only): the registry is updated after the loop, so an early error *)
+(* return leaves the sessions halted before k registered.                   *)
 (***************************************************************************)
 EXTENDS Naturals, FiniteSets, TLC
-CONSTANTS N, RemoveOnFailure    \* RemoveOnFailure = TRUE: the repaired clean-up
-VARIABLES reg, live, calls
-vars == <<reg, live, calls>>
+CONSTANTS N, CleanupAfterLoop
+VARIABLES reg, gone, limbo, calls
+vars == <<reg, gone, limbo, calls>>
 All == 1..N
-Init == reg = All /\ live = All /\ calls = 0
+Init == reg = All /\ gone = {} /\ limbo = {} /\ calls = 0
 Terminate(S) == /\ S # {} /\ S \subseteq reg /\ calls < 3
-                /\ reg' = reg \ S /\ live' = live \ S /\ calls' = calls + 1
+                /\ reg' = reg \ S /\ gone' = gone \cup (S \ limbo) /\ calls' = calls + 1
+                /\ UNCHANGED limbo
 TerminateFailsAt(S, k, before) ==
   /\ k \in S /\ S \subseteq reg /\ before \subseteq S \ {k} /\ calls < 3
-  /\ live' = live \ (before \cup {k})
-  /\ reg' = reg \ (before \cup (IF RemoveOnFailure THEN {k} ELSE {}))
+  /\ gone' = gone \cup (before \ limbo)
+  /\ limbo' = limbo \cup {k}
+  /\ \E keep \in BOOLEAN :
+       reg' = (IF CleanupAfterLoop THEN reg ELSE reg \ before) \ (IF keep THEN {} ELSE {k})
   /\ calls' = calls + 1
-Pause(S) == S \subseteq reg /\ calls < 3 /\ calls' = calls + 1 /\ UNCHANGED <<reg, live>>
+Pause(S) == S \subseteq reg /\ calls < 3 /\ calls' = calls + 1 /\ UNCHANGED <<reg, gone, limbo>>
 Next == \E S \in SUBSET All : \/ Terminate(S) \/ Pause(S)
                               \/ \E k \in S : \E b \in SUBSET (S \ {k}) : TerminateFailsAt(S, k, b)
 Spec == Init /\ [][Next]_vars
-RegistryIsLive == reg = live
+RegistryExact == /\ reg \cap gone = {}
+                 /\ (All \ gone) \ limbo \subseteq reg
 ====
